@@ -215,6 +215,27 @@ func (s *session) pinPrune(v, n int64, where string, keys [][]byte) string {
 	resume := make(chan struct{})
 	var perr error
 	var r exres
+	if where == "double-close" {
+		// two exports of version v; one of them is closed twice (deferred Close plus explicit Close):
+		// the other still pins the version
+		ex1, err1 := it.Export()
+		ex2, err2 := it.Export()
+		if err1 != nil || err2 != nil {
+			return "export-refused"
+		}
+		ex1.Close()
+		ex1.Close()
+		perr = t.DeleteVersionsTo(n)
+		r = drainEx(ex2)
+		ex2.Close()
+		if perr == nil {
+			return "version pinned by a second open export was deleted after the first one was closed twice"
+		}
+		if r.err || r.stream != want {
+			return "refused but export incomplete"
+		}
+		return "refused ok"
+	}
 	if where == "prune:checked" {
 		setYield(func(p string) {
 			if p == where {
